@@ -45,7 +45,9 @@ Inductive result :=
 Record opts := mkO { o_ids : bool;              (* explicit snapshot ids given *)
                      o_group : C24m.gopts; o_pol : C22m.policy;
                      o_unsafe : bool; o_filter_empty : bool; o_dry : bool;
-                     o_prune : bool }.
+                     o_prune : bool;
+                     o_bad_id : bool }.       (* some id argument does not resolve to exactly one snapshot
+                                                 (empty string, white space, unknown or ambiguous prefix) *)
 
 Definition group_remove (now : C22m.tm) (p : C22m.policy) (g : list snap) : list N * bool :=
   let vs := C22m.apply_policy now (map to22 g) p in
@@ -62,7 +64,7 @@ Fixpoint groups_go (now : C22m.tm) (p : C22m.policy) (gs : list (C24m.gkey * lis
   end.
 
 Definition run_forget (now : C22m.tm) (o : opts) (sel : list snap) : result :=
-  if o_ids o then Ok (map s_id sel)
+  if o_ids o then (if o_bad_id o then EOther else Ok (map s_id sel))
   else if policy_empty (o_pol o) && negb (o_unsafe o) then ENoPolicy
   else if policy_empty (o_pol o) && o_filter_empty o then EUnsafeNeedsFilter
   else groups_go now (o_pol o) (group_by (o_group o) sel) [].
@@ -124,6 +126,7 @@ Definition oracle_code (c : case) : nat :=
   else if (o_dry o || negb (ok || failed)) && negb (is_nil del) then 3%nat
   else if failed && (is_nil (c_fail c) || o_dry o) then 2%nat
   else if negb (is_nil (filter (fun i => memN i (c_fail c)) del)) then 2%nat
+  else if o_ids o && o_bad_id o && (ok || failed || negb (is_nil del)) then 6%nat
   else if o_ids o then
     (if (ok || failed) && negb (o_dry o) && negb (seteqN del (diffN sel_ids (c_fail c))) then 6%nat
      else if ok && negb (o_dry o) && negb (is_nil (filter (fun i => memN i (c_fail c)) sel_ids)) then 6%nat
